@@ -70,6 +70,15 @@
 #define VP_ENV 1        /* other threads move last_sequence / snapshots while the mutex is free */
 #endif
 
+#ifndef VP_NOFREE
+#define VP_NOFREE 0     /* 1: ldb_free is a no-op (kit/vp_alloc_d4.c), iterators are static objects */
+#endif
+#if VP_NOFREE && !defined(VP_REPLAY)
+#define VP_STATIC_ITERS 1
+#else
+#define VP_STATIC_ITERS 0
+#endif
+
 #define VP_SEQ_MAX ((UINT64_C(1) << 56) - 1)
 
 struct ldb_wfile_s { int open; };
@@ -107,6 +116,10 @@ typedef struct vp_cur_s {
   int pos;
 } vp_cur_t;
 
+#if VP_STATIC_ITERS
+static vp_cur_t in_cur_obj, vf_cur_obj;
+static ldb_iter_t in_iter_obj, vf_iter_obj;
+#endif
 static vp_cur_t *g_in = NULL;          /* cursor of the input iterator */
 static ldb_iter_t *g_in_iter = NULL;
 static int g_in_created = 0, g_in_cleared = 0;
@@ -470,10 +483,20 @@ ldb_inputiter_create(ldb_versions_t *v, ldb_compaction_t *c) {
   VP_ASSERT(vp_mutex_held, "input iterator built under the mutex (it reads the version)");
   VP_ASSERT(g_in_created == 0, "one input iterator per compaction");
   g_in_created++;
+#if VP_STATIC_ITERS
+  g_in = &in_cur_obj;
+  g_in_iter = &in_iter_obj;
+  g_in_iter->ptr = g_in;
+  g_in_iter->cleanup_head.func = NULL;
+  g_in_iter->cleanup_head.next = NULL;
+  g_in_iter->table = &vp_in_table;
+  g_in_iter->cmp = &db.internal_comparator;
+#else
   g_in = (vp_cur_t *)ldb_malloc(sizeof(vp_cur_t));
+  g_in_iter = ldb_iter_create(g_in, &vp_in_table, &db.internal_comparator);
+#endif
   g_in->kind = 0;
   g_in->pos = -1;
-  g_in_iter = ldb_iter_create(g_in, &vp_in_table, &db.internal_comparator);
   return g_in_iter;
 }
 
@@ -717,11 +740,24 @@ ldb_tables_iterate(ldb_tables_t *cache, const ldb_readopt_t *options, uint64_t f
   for (k = 0; k < VP_N; k++)
     if (k == g_cur)
       VP_ASSERT(f_number[k] == file_number && fsz[k] == file_size, "the output is re-opened by its number and final size");
+  VP_ASSERT(g_vf_live == 0, "one verification iterator at a time");
+  g_vf_live++;
+#if VP_STATIC_ITERS
+  c = &vf_cur_obj;
+  c->kind = 1;
+  c->pos = -1;
+  vf_iter_obj.ptr = c;
+  vf_iter_obj.cleanup_head.func = NULL;
+  vf_iter_obj.cleanup_head.next = NULL;
+  vf_iter_obj.table = &vp_in_table;
+  vf_iter_obj.cmp = NULL;
+  return &vf_iter_obj;
+#else
   c = (vp_cur_t *)ldb_malloc(sizeof(vp_cur_t));
   c->kind = 1;
   c->pos = -1;
-  g_vf_live++;
   return ldb_iter_create(c, &vp_in_table, NULL);
+#endif
 }
 
 /* ---- install ----------------------------------------------------------- */
